@@ -690,3 +690,150 @@ Proof.
   - intros t' tp' d rest pr H Hin.
     destruct (i_fanq _ _ HI t' tp' d rest pr H _ Hin) as [_ H2]. exact (H2 _ _ _ Hqd eq_refl).
 Qed.
+
+(** ---- taking the mutex (subscribe / unsubscribe / len / prune phase) ---- *)
+Definition nonpub_acq (p p' : pc) : Prop :=
+  match p with
+  | SubWait id tp c => p' = SubHold id tp c
+  | UnsubWait id => p' = UnsubHold id
+  | LenWait => p' = LenHold
+  | PruneWait pr => p' = PruneHold pr
+  | _ => False
+  end.
+
+Lemma no_holder : forall s m t, Inv s m -> lock s = None -> holding (get_pc s t) = false.
+Proof.
+  intros s m t HI Hl. destruct (holding (get_pc s t)) eqn:E; [|reflexivity].
+  apply (i_lock _ _ HI) in E. congruence.
+Qed.
+
+Lemma inv_acquire : forall s m t p', Inv s m -> lock s = None -> nonpub_acq (get_pc s t) p' ->
+  Inv (set_pc (set_lock s (Some t)) t p') m.
+Proof.
+  intros s m t p' HI Hl Hacq.
+  set (X := set_pc (set_lock s (Some t)) t p').
+  assert (Hpcs : pcs X = update (pcs s) t p') by reflexivity.
+  assert (Hh : holding p' = true) by (destruct (get_pc s t); cbn in Hacq; try tauto; subst p'; reflexivity).
+  assert (Hsub : forall t' id tp c, sub_pending X t' id tp c <-> sub_pending s t' id tp c).
+  { intros t' id tp c. destruct (Z.eq_dec t t') as [<-|Hne].
+    - unfold sub_pending. rewrite (gp_eq _ s t p' Hpcs).
+      destruct (get_pc s t); cbn in Hacq; try tauto; subst p'; split; intros [H|H]; try discriminate H;
+        inversion H; subst; tauto.
+    - apply (subp_neq _ s t p' t' id tp c Hpcs Hne). }
+  assert (Hfan : forall t' tp d rest pr, get_pc X t' = PubFan tp d rest pr -> get_pc s t' = PubFan tp d rest pr).
+  { intros t' tp d rest pr H. destruct (Z.eq_dec t t') as [<-|Hne].
+    - exfalso. rewrite (gp_eq _ s t p' Hpcs) in H. destruct (get_pc s t); cbn in Hacq; try tauto; congruence.
+    - rewrite (gp_neq _ s t p' t' Hpcs Hne) in H. exact H. }
+  constructor; try (unchanged HI).
+  - intro t'. cbn [lock X set_pc set_lock]. destruct (Z.eq_dec t t') as [<-|Hne].
+    + rewrite (gp_eq _ s t p' Hpcs), Hh. tauto.
+    + rewrite (gp_neq _ s t p' t' Hpcs Hne), (no_holder _ _ t' HI Hl). split; [discriminate|congruence].
+  - intros t' id tp c H. apply Hsub in H. exact (i_subp _ _ HI _ _ _ _ H).
+  - intros t1 t2 id tp c tp' c' H1 H2. apply Hsub in H1. apply Hsub in H2.
+    exact (i_subp_uniq _ _ HI _ _ _ _ _ _ _ H1 H2).
+  - intros t' tp d rest pr H. exact (i_fan _ _ HI t' tp d rest pr (Hfan _ _ _ _ _ H)).
+  - intros t' tp d rest pr H. exact (i_fanq _ _ HI t' tp d rest pr (Hfan _ _ _ _ _ H)).
+  - intro t'. destruct (Z.eq_dec t t') as [<-|Hne].
+    + pose proof (i_pend _ _ HI t) as Hp. unfold pend_ok in *. rewrite (gp_eq _ s t p' Hpcs).
+      destruct (get_pc s t); cbn in Hacq; try tauto; subst p'; exact Hp.
+    + refine (pend_ok_frame s m X m t' _ _ _ _ _ _ (i_pend _ _ HI t')); try reflexivity; try (intros; assumption); try lia.
+      apply (gp_neq _ s t p' t' Hpcs Hne).
+  - intros e He. destruct (i_ret_or_pend _ _ HI e He) as [H|[t' H]]; [left; exact H|].
+    right. exists t'. apply Hsub. exact H.
+  - intros id t' tp c Hr H. apply Hsub in H. exact (i_ret_excl _ _ HI id t' tp c Hr H).
+  - intros id n H. destruct (i_dead _ _ HI id n H) as [D1 [D2 D3]]. split; [exact D1|]. split; [|exact D3].
+    intros t' tp c Hs. apply Hsub in Hs. exact (D2 t' tp c Hs).
+Qed.
+
+(** ---- a blocked poll ---- *)
+Lemma holding_pend : forall s m h, Inv s m -> holding (get_pc s h) = true ->
+  exists p, lookup (m_pend m) h = Some p.
+Proof.
+  intros s m h HI Hh. pose proof (i_pend _ _ HI h) as Hp. unfold pend_ok in Hp.
+  destruct (get_pc s h); cbn in Hh; try discriminate Hh; destruct Hp as [p [Hp _]]; exists p; exact Hp.
+Qed.
+
+Lemma mon_blocked : forall s m t h, Inv s m -> lock s = Some h -> waiting (get_pc s t) = true ->
+  mon_step m (EBlocked t) = MOk m.
+Proof.
+  intros s m t h HI Hl Hw.
+  assert (Hh : holding (get_pc s h) = true) by (apply (i_lock _ _ HI); exact Hl).
+  assert (Hne : h <> t) by (intros ->; destruct (get_pc s t); cbn in *; congruence).
+  destruct (holding_pend _ _ _ HI Hh) as [p Hp].
+  assert (Ho : other_pending m t = true).
+  { unfold other_pending. apply existsb_exists. exists (h, p). split; [apply lookup_In; exact Hp|cbn; lia]. }
+  unfold mon_step. destruct (lookup (m_pend m) t) as [p0|]; [|reflexivity].
+  destruct (p_op p0); try reflexivity. rewrite Ho. reflexivity.
+Qed.
+
+(** ---- publish takes the mutex: its place in the publication order ---- *)
+Lemma must_prune_spec : forall m tp id, In id (must_prune m tp) ->
+  exists k, lookup (m_known m) id = Some k /\ k_ret k = true /\ k_topic k = tp /\ zmem (k_chan k) (m_closed m) = true.
+Proof.
+  intros m tp id H. unfold must_prune in H. apply filter_In in H. destruct H as [_ H].
+  destruct (lookup (m_known m) id) as [k|]; [|discriminate]. exists k.
+  apply andb_prop in H. destruct H as [H H3]. apply andb_prop in H. destruct H as [H1 H2].
+  repeat split; try assumption. lia.
+Qed.
+
+Lemma inv_pub_acquire : forall s m t tp d, Inv s m -> lock s = None -> get_pc s t = PubWait tp d ->
+  exists m', mon_run m (snd (step_task s t)) = MOk m' /\ Inv (fst (step_task s t)) m'.
+Proof.
+  intros s m t tp d HI Hl Hpc. unfold step_task. rewrite Hpc. cbn [acquired]. rewrite Hl. cbn [fst snd mon_run].
+  pose proof (i_pend _ _ HI t) as Hp. unfold pend_ok in Hp. rewrite Hpc in Hp. destruct Hp as [p0 [Hp1 [Hp2 Hp3]]].
+  set (p' := PubFan tp d (entries s) []).
+  set (X := {| entries := entries (set_pc (set_lock s (Some t)) t p'); next_id := next_id (set_pc (set_lock s (Some t)) t p');
+               lock := lock (set_pc (set_lock s (Some t)) t p'); chans := chans (set_pc (set_lock s (Some t)) t p');
+               pcs := pcs (set_pc (set_lock s (Some t)) t p'); npub := S (npub (set_pc (set_lock s (Some t)) t p'));
+               alloc := alloc (set_pc (set_lock s (Some t)) t p'); lastq := lastq (set_pc (set_lock s (Some t)) t p') |}).
+  eexists. split.
+  { unfold mon_step. rewrite Hp1, Hp2, Hp3. cbn [op_eqb negb andb]. rewrite !Z.eqb_refl. cbn [andb]. reflexivity. }
+  assert (Hpcs : pcs X = update (pcs s) t p') by reflexivity.
+  assert (Hsub : forall t' id tp' c, sub_pending X t' id tp' c <-> sub_pending s t' id tp' c).
+  { intros t' id tp' c. destruct (Z.eq_dec t t') as [<-|Hne].
+    - unfold sub_pending. rewrite (gp_eq _ s t p' Hpcs), Hpc. unfold p'. split; intros [H|H]; discriminate H.
+    - apply (subp_neq _ s t p' t' id tp' c Hpcs Hne). }
+  assert (Hfan : forall t' tp' d' rest pr, get_pc X t' = PubFan tp' d' rest pr ->
+            t' = t /\ tp' = tp /\ d' = d /\ rest = entries s /\ pr = []).
+  { intros t' tp' d' rest pr H. destruct (Z.eq_dec t t') as [<-|Hne].
+    - rewrite (gp_eq _ s t p' Hpcs) in H. unfold p' in H. inversion H. tauto.
+    - exfalso. rewrite (gp_neq _ s t p' t' Hpcs Hne) in H. pose proof (no_holder _ _ t' HI Hl) as Hn.
+      rewrite H in Hn. discriminate. }
+  constructor; try (unchanged HI).
+  - intro t'. cbn [lock X set_pc set_lock]. destruct (Z.eq_dec t t') as [<-|Hne].
+    + rewrite (gp_eq _ s t p' Hpcs). cbn. tauto.
+    + rewrite (gp_neq _ s t p' t' Hpcs Hne), (no_holder _ _ t' HI Hl). split; [discriminate|congruence].
+  - intros t' id tp' c H. apply Hsub in H. exact (i_subp _ _ HI _ _ _ _ H).
+  - intros t1 t2 id tp1 c1 tp2 c2 H1 H2. apply Hsub in H1. apply Hsub in H2.
+    exact (i_subp_uniq _ _ HI _ _ _ _ _ _ _ H1 H2).
+  - intros t' tp' d' rest pr H. destruct (Hfan _ _ _ _ _ H) as [-> [-> [-> [-> ->]]]].
+    split; [exact (i_ent_nd _ _ HI)|]. split; [apply incl_refl|cbn; lia].
+  - intros c mg q H. destruct (i_q _ _ HI c mg q H) as [H1 H2]. split; [cbn; lia|exact H2].
+  - intro id. pose proof (i_lastq _ _ HI id). cbn [npub X]. cbn. cbn in H. unfold get_lastq in *. cbn. lia.
+  - intros t' tp' d' rest pr H id Hin. destruct (Hfan _ _ _ _ _ H) as [-> [-> [-> [-> ->]]]]. split.
+    + pose proof (i_lastq _ _ HI id). unfold get_lastq in *. cbn. lia.
+    + intros c mg q Hq _. destruct (i_q _ _ HI c mg q Hq) as [H1 _]. cbn. lia.
+  - intro t'. destruct (Z.eq_dec t t') as [<-|Hne].
+    + unfold pend_ok. rewrite (gp_eq _ s t p' Hpcs). unfold p'. eexists. split; [cbn; apply lookup_update_eq|].
+      cbn [p_op p_lin p_ids]. split; [exists tp, d; reflexivity|]. split; [reflexivity|].
+      intros id Hin. destruct (must_prune_spec _ _ _ Hin) as [k [K1 [K2 [K3 K4]]]].
+      split; [unfold is_returned; cbn; rewrite K1; exact K2|].
+      destruct (in_dec Z.eq_dec id (ids_of (entries s))) as [Hi|Hi]; [|left; exact Hi].
+      right. right. apply in_ids_of in Hi. destruct Hi as [e [He1 He2]]. exists e.
+      pose proof (i_known _ _ HI _ _ K1) as Ha.
+      pose proof (nodup_ids_inj _ _ _ (i_alloc_nd _ _ HI) (i_ent_alloc _ _ HI _ He1) Ha He2) as Heq.
+      subst e. cbn. repeat split; try assumption. exact (i_closed _ _ HI _ K4).
+    + refine (pend_ok_frame s m X _ t' _ _ _ _ _ _ (i_pend _ _ HI t')); try reflexivity; try (intros; assumption); try lia.
+      * apply (gp_neq _ s t p' t' Hpcs Hne).
+      * cbn. apply lookup_update_neq. exact Hne.
+  - intros e He. destruct (i_ret_or_pend _ _ HI e He) as [H|[t' H]]; [left; exact H|].
+    right. exists t'. apply Hsub. exact H.
+  - intros id t' tp' c Hr H. apply Hsub in H. exact (i_ret_excl _ _ HI id t' tp' c Hr H).
+  - cbn. rewrite app_length. cbn. rewrite (i_pubs_len _ _ HI). lia.
+  - intros c mg q H. cbn [m_pubs]. destruct (i_q _ _ HI c mg q H) as [H1 _].
+    rewrite nth_error_app1 by (rewrite (i_pubs_len _ _ HI); exact H1). exact (i_pubs _ _ HI c mg q H).
+  - intros id n H. destruct (i_dead _ _ HI id n H) as [D1 [D2 [D3 [D4 [D5 D6]]]]].
+    repeat split; try assumption.
+    + intros t' tp' c Hs. apply Hsub in Hs. exact (D2 t' tp' c Hs).
+    + cbn. lia.
+Qed.
